@@ -64,6 +64,8 @@ def run(ctx):
         _seedcover(ctx, cfg, prog, mod)
         _seedsome(ctx, cfg, prog, mod)
         _postorient(ctx, cfg, prog, lv)
+        import verdict
+        verdict.rule(ctx, cfg, prog)
     return ctx.finish(EXPLANATION)
 
 
